@@ -737,6 +737,14 @@ func aggregate(id, tier string, seed int64, pc *PropCfg, bo *buildOut, results [
 		b, _ := json.MarshalIndent(v, "", " ")
 		os.WriteFile(path, b, 0644)
 		ok, why := confirmReplay(bo, path, id, class)
+		if !ok && (class == "hang" || class == "out-of-memory" || class == "fatal-error") {
+			// a worker died and the same plan and choices do not kill a fresh
+			// process: the machine, not the program (the watchdog runs on the
+			// real clock)
+			tot.Inconclusive["worker-died-not-reproduced"]++
+			os.Remove(path)
+			continue
+		}
 		if !ok {
 			infra = append(infra, fmt.Sprintf("violation %s (%s) did not replay in a fresh process: %s", class, path, why))
 			continue
@@ -769,9 +777,6 @@ func aggregate(id, tier string, seed int64, pc *PropCfg, bo *buildOut, results [
 // violation where the property speaks about it (hangs and crashes inside a
 // decode step: C01, C02); the replay is the plan of the run in progress.
 func deathViolation(id string, wr *workerRes) map[string]interface{} {
-	if id != "C01" && id != "C02" {
-		return nil
-	}
 	if wr.Plan == nil || wr.Status == "" {
 		return nil
 	}
@@ -791,6 +796,13 @@ func deathViolation(id string, wr *workerRes) map[string]interface{} {
 		return nil
 	}
 	if id == "C01" && class != "fatal-error" {
+		return nil
+	}
+	if id != "C01" && id != "C02" && class == "out-of-memory" {
+		// the other checks feed well-formed input only: a hang (a deadlock,
+		// a loop that never ends) or a fatal runtime error there is a failure
+		// of the property at hand, once the replay dies as well; memory
+		// exhaustion stays C02's concern
 		return nil
 	}
 	fields := map[string]string{}
